@@ -19,7 +19,9 @@ def g_v3cfg(u, need_auth=False, need_priv=False):
     n = u.range(5, 32)
     eid = b"\x80" + u.take(n - 1)
     cfg.engine_id = eid
-    ul = (0, 1, 4, 8, 16, 31, 32, u.below(33))[u.below(8)]
+    # RFC 3414 limits msgUserName to 32 octets but the library accepts any length, and whatever it emits must be signed
+    # correctly: names long enough to need a long-form length sit right in front of the auth field
+    ul = (0, 1, 4, 8, 16, 31, 32, u.below(33), 8, 5, 127, 128, 200, 255, 256, 300)[u.below(16)]
     cfg.user = "".join(chr(97 + (b % 26)) for b in u.take(ul))
     return cfg
 
